@@ -558,6 +558,39 @@ func scanFrame(P *Program, which string) []*Obl {
 			}
 		}
 	}
+	// synchronisation primitives held in package variables (sync.Pool, sync.Map, sync.Mutex, atomics ...) are shared
+	// mutable state: using one - other than running a sync.Once, which the once-discipline scan decides - is a write to G
+	for _, fn := range fns {
+		for _, b := range fn.Blocks {
+			for _, in := range b.Instrs {
+				ci, ok := in.(ssa.CallInstruction)
+				if !ok {
+					continue
+				}
+				cc := ci.Common()
+				callee, ok := cc.Value.(*ssa.Function)
+				if !ok || callee.Pkg == nil {
+					continue
+				}
+				pp := callee.Pkg.Pkg.Path()
+				if pp != "sync" && pp != "sync/atomic" {
+					continue
+				}
+				if pp == "sync" && callee.Name() == "Do" {
+					continue
+				}
+				for _, a := range cc.Args {
+					if _, isPtr := a.Type().Underlying().(*types.Pointer); !isPtr {
+						continue
+					}
+					k, _, gl := P.rootOfValue(a, fresh, 0)
+					if k == rkGlobal && gl != nil && gl.Pkg != nil && strings.HasPrefix(gl.Pkg.Pkg.Path(), modPath) {
+						add(fn, effect{region: "G", target: -1, what: gl.Pkg.Pkg.Name() + "." + gl.Name(), pos: P.fset.Position(in.Pos()).String(), via: "call of " + callee.String() + " on a package variable"})
+					}
+				}
+			}
+		}
+	}
 	// propagate through calls
 	calleesOf := func(cc *ssa.CallCommon) []*ssa.Function {
 		if cc.IsInvoke() {
